@@ -270,6 +270,11 @@ def gen_remove(tier, seed):
             snxgen.set_names(None)
             subsets = [list(s) for r in range(0, cfg['nstn']) for s in itertools.combinations(names, r)]
             yield dict(cfg, subsets=subsets[:64], names='keywords')
+            snxgen.set_names('mixedcase')
+            names = snxgen.codes(cfg['nstn'])
+            snxgen.set_names(None)
+            subsets = [list(s) for r in range(0, cfg['nstn']) for s in itertools.combinations(names, r)]
+            yield dict(cfg, subsets=subsets[:64], names='mixedcase')
     # sites with two solutions (a discontinuity: solution numbers n and n + 1 under one site code): one SITE/ID line, two
     # SOLUTION/EPOCHS lines and two parameter groups per such site
     for cfg in configs(tier):
@@ -345,6 +350,8 @@ def gen_other(tier, seed):
         if cfg['nstn'] in (3, 5):
             yield dict(cfg, op='velocity' if cfg['vel'] else 'zeros', names='keywords', blockdiag=not cfg['vel'])
             yield dict(cfg, op='readers', names='keywords')
+            yield dict(cfg, op='velocity' if cfg['vel'] else 'zeros', names='mixedcase', blockdiag=not cfg['vel'])
+            yield dict(cfg, op='readers', names='mixedcase')
         if cfg['nstn'] in (2, 4):
             # an input file whose creation time reads exactly like its data start / data end epoch: only the creation time changes
             for ct in ('20:100:00000', '20:093:00000'):
